@@ -23,7 +23,7 @@
     - the v1 engine's resume layer ([Contract/V1Resume.v] over [Trie/InstanceState.v]):
       [response_word_decodable], [response_word_encoding_injective], [response_word_fails_only_on_too_many],
       [resume_preserves_or_invalidates], [migrate_is_instance_state_resume],
-      [energy_across_interrupt], [energy_no_double_charge].
+      [interrupt_preserves_host_fields], [call_depth_budget], [energy_across_interrupt], [energy_no_double_charge].
     Documented non-properties: [artifact_parser_not_byte_canonical] (over-long LEB128 accepted),
     [reject_code_zero_would_collide] (unreachable: the engine rejects with negative codes only).
     Energy in the machine model is a tick SUM + the sequence of non-zero ticks. *)
@@ -307,12 +307,32 @@ Theorem migrate_is_instance_state_resume : forall commit inner outer,
 Proof. exact resume_is_migrate. Qed.
 Print Assumptions migrate_is_instance_state_resume.
 
+(** every host field that survives an interrupt ([StateLessReceiveHost] conversion + [SavedHost] +
+    [resume_receive]): activation frames, energy, return value unchanged; logs handed out ++ logs kept =
+    logs produced; parameters grow as the word says; balance set on success only; state migrated *)
+Theorem interrupt_preserves_host_fields : forall clear h su cur r h' w,
+  resume_in (snd (interrupt_out clear h)) (fst (fst (interrupt_out clear h))) su cur r = Some (h', w) ->
+  rh_activation_frames h' = rh_activation_frames h
+  /\ rh_energy h' = rh_energy h
+  /\ rh_return_value h' = rh_return_value h
+  /\ snd (fst (interrupt_out clear h)) ++ rh_logs h' = rh_logs h
+  /\ response_word su (rh_params h) r = Some (w, rh_params h')
+  /\ rh_self_balance h' = match r with RSuccess b _ => b | RFailure _ => rh_self_balance h end
+  /\ rh_frame h' = migrate su cur (rh_frame h).
+Proof. exact interrupt_preserves_host_fields_thm. Qed.
+Print Assumptions interrupt_preserves_host_fields.
+
+(** the call-depth budget that must survive: [n] nested calls succeed iff [n] frames are left *)
+Theorem call_depth_budget : forall h n,
+  (enter_calls h n <> None <-> (n <= rh_activation_frames h)%N)
+  /\ (forall h1, enter_calls h n = Some h1 -> leave_calls h1 n = h).
+Proof. exact enter_leave_calls. Qed.
+Print Assumptions call_depth_budget.
+
 (** energy at the interrupt = energy at the resume: [resume_receive] charges nothing before [run_config] *)
-Theorem energy_across_interrupt : forall h su cur r h' w,
-  resume_in (snd (interrupt_out h)) (fst (interrupt_out h)) su cur r = Some (h', w) ->
-  rh_energy h' = rh_energy h
-  /\ rh_frame h' = migrate su cur (rh_frame h)
-  /\ response_word su (rh_params h) r = Some (w, rh_params h').
+Theorem energy_across_interrupt : forall clear h su cur r h' w,
+  resume_in (snd (interrupt_out clear h)) (fst (fst (interrupt_out clear h))) su cur r = Some (h', w) ->
+  rh_energy h' = rh_energy h.
 Proof. exact energy_across_interrupt_thm. Qed.
 Print Assumptions energy_across_interrupt.
 
